@@ -72,6 +72,24 @@ def _cache_updates(fl, pkg):
     return out
 
 
+def _cache_growth(f):
+    """(cache, what is added) when the fact adds members to a cached set of self: `.update(X)`, `|= X`, `= self.<cache> | X`,
+    `= self.<cache>.union(X)`; else None"""
+    if f.kind == "call" and f.target == "update" and f.value and f.value[0] == "meth" and f.value[1][0] == "attr" and f.value[1][1] == SELF \
+            and f.value[1][2] in CACHES and len(f.value[3]) == 1:
+        return f.value[1][2], simp(f.value[3][0])
+    if f.kind == "attrstore" and f.target in CACHES and f.extra.get("obj") == SELF:
+        own = ("attr", SELF, f.target)
+        v = simp(f.value)
+        if f.op == "BitOr":
+            return f.target, v
+        if f.op == "=" and v[0] == "binop" and v[1] == "BitOr" and own in (v[2], v[3]):
+            return f.target, v[3] if v[2] == own else v[2]
+        if f.op == "=" and v[0] == "meth" and v[1] == own and v[2] == "union" and len(v[3]) == 1:
+            return f.target, v[3][0]
+    return None
+
+
 def _flat_and(g):
     if g[0] == "bool" and g[1] == "And":
         out = []
@@ -91,8 +109,12 @@ def _covers(update, mutation):
 def _r1(ctx, pkg):
     ci = pkg.cls("Network")
     n = 0
+    # helper PROCEDURES of the class are expanded where they are called (`self._rebuild_caches()` is the statements it holds); the
+    # adders stay calls: they are the cache-maintaining primitives _cache_updates knows
+    def procs(name):
+        return None if name in ("add_reaction", "_add_reaction", "add_reaction_from_file") else pkg.resolve("Network", name)[1]
     for mname, fn in ci.methods.items():
-        fl = Flow(fn, NF)
+        fl = Flow(fn, NF, proc_resolver=procs)
         muts = _mutations(fl)
         if not muts:
             continue
@@ -182,14 +204,20 @@ def _r2(ctx, pkg):
         bool(tests) and not guards_satisfiable(skip[0].guards, [(tests[0], all_test(tests[0]) > 0)]) and guards_satisfiable(skip[0].guards, [(ALLOWED, True), (tests[0], all_test(tests[0]) < 0)])
     ctx.check(ok_skip, "R2", "_add_reaction:rejected are remembered", (NF, skip[0].line if skip else fn.lineno),
               "a rejected reaction is recorded in _skipped_reactions (so a later change of the allowed list can re-admit it)")
-    # cache updates use the appended reaction
-    ups = [f for f in fl.facts if f.kind == "call" and f.target == "update" and f.value[1][0] == "attr" and f.value[1][2] in CACHES]
-    good = len(ups) == 2
-    for u in ups:
-        side = "reactants" if u.value[1][2] == "_reactants" else "products"
-        arg = simp(u.value[3][0])
+    # cache updates use the appended reaction: self._reactants.update(X) / self._reactants |= X / self._reactants = self._reactants | X
+    ups = [(f, g) for f in fl.facts for g in [_cache_growth(f)] if g is not None]
+    good = len(ups) == 2 and {g[0] for _, g in ups} == set(CACHES)
+    for u, (cache, arg) in ups:
+        side = "reactants" if cache == "_reactants" else "products"
         good = good and any(x == ("attr", reac, side) for x in walk(arg)) and {(simp(g), p) for g, p in u.guards} == {(simp(g), p) for g, p in a.guards}
-    ctx.check(good, "R2", "_add_reaction:cache update", (NF, ups[0].line if ups else fn.lineno), "_reactants/_products receive the species of exactly the appended reaction, on the same path")
+    # the caches are written in some other way (element-wise add in a loop, ..): not understood, no verdict
+    other = [f for f in fl.facts if not any(f is u for u, _ in ups) and
+             ((f.kind == "call" and f.value and f.value[0] == "meth" and f.value[1][0] == "attr" and f.value[1][1] == SELF and f.value[1][2] in CACHES) or
+              (f.kind == "attrstore" and f.target in CACHES and f.extra.get("obj") == SELF))]
+    if not good and other:
+        ctx.unrec("R2", "_add_reaction:cache update", (NF, other[0].line), f"the cached sets are maintained in a way that is not understood ({other[0].kind} {other[0].target})")
+    else:
+        ctx.check(good, "R2", "_add_reaction:cache update", (NF, ups[0][0].line if ups else fn.lineno), "_reactants/_products receive the species of exactly the appended reaction, on the same path")
     # setter
     st = pkg.cls("Network").methods.get("allowed_species.setter")
     if st is None:
@@ -287,29 +315,46 @@ def _r3(ctx, pkg):
     ctx.floor("R3", "option/argument reads", n, 45)
 
 
+def _set_difference(v):
+    """(a, b) for the set difference a - b spelled `a - b` or `a.difference(b)`; else None"""
+    if v[0] == "binop" and v[1] == "Sub":
+        return v[2], v[3]
+    if v[0] == "meth" and v[2] == "difference" and len(v[3]) == 1 and not v[4]:
+        return v[1], v[3][0]
+    return None
+
+
 def _r4(ctx, pkg):
+    from .c09 import species_order, union_operands, class_resolver
     ci = pkg.cls("Network")
     R, P, Q = ("attr", SELF, "_reactants"), ("attr", SELF, "_products"), ("attr", SELF, "_required_species")
-    union = ("binop", "BitOr", ("binop", "BitOr", R, P), ("call", ("global", "set"), (Q,), ()))
-    fn = ci.methods["species"]
-    fl = Flow(fn, NF)
-    # by role: the local that is returned; its first value is the membership
-    retname = next((x.id for n in ast.walk(fn) if isinstance(n, ast.Return) and n.value is not None for x in ast.walk(n.value) if isinstance(x, ast.Name) and x.id in fl.assigns), None)
-    a = fl.assigns.get(retname, []) if retname else []
-    v0 = simp(a[0][0]) if a else None
-    # the ORDER of the species is C09/C17's subject; here only the membership matters
-    inner = v0[2][0] if v0 and v0[0] == "call" and v0[1] in (("global", "sorted"), ("global", "list"), ("global", "tuple")) and len(v0[2]) == 1 else v0
-    ok = inner == union
-    ctx.check(ok, "R4", "Network.species:source", (NF, fn.lineno), "species are the members of _reactants | _products | set(_required_species)", found=show(v0)[:100] if a else "")
+    want = {R, P, ("call", ("global", "set"), (Q,), ())}
+    # by role: what the value handed out is sorted from (helper methods inlined).  The ORDER is C09/C17's subject; here only the
+    # membership matters
+    fn, fl, rets = species_order(pkg)
+    for f, layers, members in rets[:1]:
+        ops = union_operands(members)
+        ok = len(ops) == 3 and set(ops) == want
+        # a helper method that could not be followed, a loop-carried value: not understood (never a verdict)
+        opaque = not ok and any(o[0] in ("unknown", "carried", "after", "acc", "phi") or (o[0] == "meth" and o[1] == SELF) for o in ops)
+        if opaque:
+            ctx.unrec("R4", "Network.species:source", (NF, fn.lineno), f"where the species come from is not understood: {show(members)[:120]}")
+        else:
+            ctx.check(ok, "R4", "Network.species:source", (NF, fn.lineno), "species are the members of _reactants | _products | set(_required_species)", found=show(members)[:100])
+    if not rets:
+        ctx.unrec("R4", "Network.species:source", (NF, fn.lineno), "Network.species returns nothing")
     fn = ci.methods["find_source_sink"]
-    fl = Flow(fn, NF)
+    fl = Flow(fn, NF, resolver=class_resolver(pkg, "Network"))
     rv = [simp(f.value) for f in fl.facts if f.kind == "return"]
-    src = snk = []
+    src = snk = None
     if len(rv) == 1 and rv[0][0] == "tuple" and len(rv[0][1]) == 2:
-        src, snk = [(rv[0][1][0],)], [(rv[0][1][1],)]
-    ok = bool(src) and bool(snk) and simp(src[0][0]) == ("meth", R, "difference", (P,), ()) and simp(snk[0][0]) == ("meth", P, "difference", (R,), ())
-    ctx.check(ok, "R4", "Network.find_source_sink", (NF, fn.lineno), "sources = reactants - products, sinks = products - reactants",
-              found=f"{show(simp(src[0][0]))[:50] if src else ''} / {show(simp(snk[0][0]))[:50] if snk else ''}")
+        src, snk = _set_difference(rv[0][1][0]), _set_difference(rv[0][1][1])
+    if src is None or snk is None:
+        ctx.unrec("R4", "Network.find_source_sink", (NF, fn.lineno), "the result is not a pair of set differences: " + "; ".join(show(x)[:80] for x in rv))
+    else:
+        ok = src == (R, P) and snk == (P, R)
+        ctx.check(ok, "R4", "Network.find_source_sink", (NF, fn.lineno), "sources = reactants - products, sinks = products - reactants",
+                  found=f"{show(src[0])} - {show(src[1])} / {show(snk[0])} - {show(snk[1])}")
 
 
 # ------------------------------------------------------------------ R7  a one-off reduction must not stay behind as a filter
@@ -433,6 +478,7 @@ def _r6(ctx, pkg):
 
 
 EXT = "naunet/console/commands/extend.py"
+REBUILD = "        # the cached species sets must follow the reactions that are left\n        self._reactants = {r for reac in self.reaction_list for r in reac.reactants}\n        self._products = {p for reac in self.reaction_list for p in reac.products}\n"
 MUTANTS = [
     {"name": "extend-reduces-through-setter", "file": EXT, "old": "            net = Network(newlist)\n", "new": "            net.allowed_species = allowed_species\n", "rules": ["R7"]},
     {"name": "species-memo-missing-reset", "edits": [
@@ -450,9 +496,28 @@ MUTANTS = [
     {"name": "filter-reactants-only", "file": NF, "old": "                    for rp in reaction.reactants + reaction.products\n                ]\n            ):\n                self._skipped_reactions.append(reaction)", "new": "                    for rp in reaction.reactants\n                ]\n            ):\n                self._skipped_reactions.append(reaction)", "rules": ["R2"]},
     {"name": "undeclared-option-read", "file": EXT, "old": 'allowed_species = self.option("reduce-by-species")', "new": 'allowed_species = self.option("limit-species")', "rules": ["R3"]},
     {"name": "remove-in-place-backwards", "file": NF, "old": "            self.reaction_list = [\n                r for idx, r in enumerate(self.reaction_list) if idx not in reaction\n            ]\n", "new": "            for idx in sorted(reaction, reverse=True):\n                del self.reaction_list[idx]\n", "rules": ["R5"]},
+    {"name": "cache-rebuild-helper-forgets-products", "file": NF, "old": REBUILD,
+     "new": "        self._recache()\n\n    def _recache(self):\n        self._reactants = {r for reac in self.reaction_list for r in reac.reactants}\n", "rules": ["R1"]},
+    {"name": "products-grown-by-reactants-operator", "file": NF, "old": "        self._products.update(new_products)\n", "new": "        self._products |= new_reactants\n", "rules": ["R2"]},
+    {"name": "sink-by-operator-wrong-way", "file": NF, "old": "sink = self._products.difference(self._reactants)", "new": "sink = self._reactants - self._products", "rules": ["R4"]},
     {"name": "source-sink-swapped", "file": NF, "old": "source = self._reactants.difference(self._products)", "new": "source = self._reactants.difference(self._reactants)", "rules": ["R4"]},
 ]
 BENIGN = [
+    {"name": "cache-rebuild-in-helper-procedure", "file": NF, "old": REBUILD,
+     "new": "        self._recache()\n\n    def _recache(self):\n        self._reactants = {r for reac in self.reaction_list for r in reac.reactants}\n        self._products = {p for reac in self.reaction_list for p in reac.products}\n"},
+    {"name": "cache-growth-and-differences-by-operator", "edits": [
+        {"file": NF, "old": "        self._reactants.update(new_reactants)\n        self._products.update(new_products)\n", "new": "        self._reactants |= new_reactants\n        self._products = self._products | new_products\n"},
+        {"file": NF, "old": "        source = self._reactants.difference(self._products)\n        sink = self._products.difference(self._reactants)\n",
+         "new": "        consumed, produced = self._reactants, self._products\n        source = consumed - produced\n        sink = produced - consumed\n"}]},
+    {"name": "removal-by-closure-dispatch", "file": NF,
+     "old": "        elif isinstance(reaction, list) and all(isinstance(r, int) for r in reaction):\n            self.reaction_list = [\n                r for idx, r in enumerate(self.reaction_list) if idx not in reaction\n            ]\n\n"
+            "        elif isinstance(reaction, Reaction):\n            self.reaction_list = [r for r in self.reaction_list if r != reaction]\n\n"
+            "        elif isinstance(reaction, list) and all(\n            isinstance(r, Reaction) for r in reaction\n        ):\n            self.reaction_list = [r for r in self.reaction_list if r not in reaction]\n\n"
+            "        else:\n            raise TypeError\n",
+     "new": "        else:\n            if isinstance(reaction, list) and all(isinstance(r, int) for r in reaction):\n                def keep(idx, r):\n                    return idx not in reaction\n"
+            "            elif isinstance(reaction, Reaction):\n                def keep(idx, r):\n                    return r != reaction\n"
+            "            elif isinstance(reaction, list) and all(isinstance(r, Reaction) for r in reaction):\n                def keep(idx, r):\n                    return r not in reaction\n"
+            "            else:\n                raise TypeError\n            self.reaction_list = [r for idx, r in enumerate(self.reaction_list) if keep(idx, r)]\n"},
     {"name": "species-memo-reset-by-every-writer", "edits": [
         {"file": NF, "old": "            list[Species]: species in the network\n        \"\"\"\n", "new": "            list[Species]: species in the network\n        \"\"\"\n        if self._spc is not None:\n            return list(self._spc)\n"},
         {"file": NF, "old": "        speclist = sorted(speclist, key=lambda x: (len(connection[x]), x))\n", "new": "        speclist = sorted(speclist, key=lambda x: (len(connection[x]), x))\n        self._spc = speclist\n"},
